@@ -107,6 +107,10 @@ func (g *gen) field(kind, ctx string) int {
 func (g *gen) action(i int, allowHTMLPipe bool) string {
 	ref := fmt.Sprintf("$.V%d", i)
 	k := g.n(0, 11, "deco")
+	if strings.HasPrefix(g.p.Fields[i].Kind, "typed:") && k <= 2 {
+		// print / html would turn a safe-type value into a plain string
+		k = 6
+	}
 	switch {
 	case k == 0:
 		return "{{" + ref + " | print}}"
@@ -169,7 +173,7 @@ func attrsFor(elem string) []attrSpec {
 	return out
 }
 
-var staticText = []string{"a", "b c", "Hello", " ", "\n", "\t", "x &amp; y", "&lt;b&gt;", "&", "& ", "a&b", "&#39;", "&quot;", "&copy", ">", "\"", "'", "1 < 2", "< ", "<3", "<=", "a<", "<>", "=", "/", "--", "->", "]]>", "é", "`", "&#x3c;x", "</", "< /p>"}
+var staticText = []string{"a", "b c", "Hello", " ", "\n", "\t", "x &amp; y", "&lt;b&gt;", "&", "& ", "a&b", "&#39;", "&quot;", "&copy", ">", "\"", "'", "1 < 2", "< ", "<3", "<=", "a<", "<>", "=", "/", "--", "->", "]]>", "é", "`", "&#x3c;x", "< /p>"}
 var rcdataText = []string{"a", "b c", "<b>", "</b>", "<i>x</i>", "<!--", "-->", "<!-- x -->", "&amp;", "&lt;", "<", ">", "\"", "</titl", "</text", "< /title>", "</ textarea>", "<script>", "</div>"}
 var scriptText = []string{"var a = 1;", "f(\"x\");", "if (a < b) {}", "a > b", "// c\n", "/* c */", "'</div>'", "x = '<b>'", "a && b", "let s = \"q\";", "\n"}
 var styleText = []string{"p { color: red; }", "a > b { }", ".c:before { content: \"<\"; }", "/* c */", "\n", "@media x { }"}
@@ -287,8 +291,9 @@ func (g *gen) textChunk(b *strings.Builder) {
 	b.WriteString(s)
 	// never leave a text node that ends in a tag-open-like suffix directly before whatever follows:
 	// close it with a harmless character (the boundary-lt class is generated separately)
-	if strings.HasSuffix(s, "<") || strings.HasSuffix(s, "</") || strings.HasSuffix(s, "&") {
-		b.WriteString(" ")
+	// (a trim marker of the next action may remove white space, so the closer is not white space)
+	if t := strings.TrimRight(s, " \t\n"); strings.HasSuffix(t, "<") || strings.HasSuffix(t, "</") || strings.HasSuffix(t, "&") {
+		b.WriteString(".")
 	}
 }
 
@@ -395,7 +400,7 @@ func (g *gen) element(b *strings.Builder, depth int) {
 	} else {
 		g.content(b, name, depth+1)
 	}
-	if g.n(0, 11, "omitend") != 0 {
+	if name == "iframe" || name == "noscript" || g.n(0, 11, "omitend") != 0 {
 		b.WriteString(g.endTag(name))
 	}
 }
